@@ -146,7 +146,7 @@ def make_problem(case, rng):
             cores.append(Ti.reshape(1, m_, m_, 1))
         op = TT(cores)                       # Kronecker product of tridiagonal SPD integer matrices, int64 cores
         A = mat(op).astype(float)
-        b = TT([np.rint(1000 * rng.standard_normal((1 if i == 0 else case['rb'], dims[i], 1, 1 if i == d - 1 else case['rb']))).astype(np.int64) for i in range(d)])
+        b = TT([np.rint((1000 if d <= 3 else 20) * rng.standard_normal((1 if i == 0 else case['rb'], dims[i], 1, 1 if i == d - 1 else case['rb']))).astype(np.int64) for i in range(d)])
         return op, A, b
     if case['op'] == 'dense':
         B = rng.standard_normal((n, n)) + (1j * rng.standard_normal((n, n)) if c else 0)
@@ -174,7 +174,7 @@ def run_case(case, seed):
     guess = tt_from(rand_cores(rng, dims, [1] * d, rg, c in (True, 'guess')))
     if case['op'] == 'kronint':
         from scikit_tt.tensor_train import TT as _TT
-        g_ = [np.rint(1000 * rng.standard_normal((rg[i], dims[i], 1, rg[i + 1]))) for i in range(d)]    # integer dtype, generic values (no exact coincidences)
+        g_ = [np.rint((1000 if d <= 3 else 20) * rng.standard_normal((rg[i], dims[i], 1, rg[i + 1]))) for i in range(d)]    # integer dtype, generic values (no exact coincidences); magnitudes chosen so that the int64 environments cannot overflow
         guess = _TT([x_.astype(np.int64) for x_ in g_])
         # D5: the frames of the guess must have full rank (every unfolding rank equals the representation rank)
         from vt.core import unfolding_svals
